@@ -608,11 +608,16 @@ impl Id {
                 })
             }
             Ast::Comma(l, r) => Box::new(l.paths(cv.clone()).chain(lazy(|| r.paths(cv)))),
+            // `path(if first(l // false) then l else r end)`
             Ast::Alt(l, r) => {
-                let any_true = l
+                let mut l_true = l
                     .run(proj_cv(&cv))
-                    .any(|v| v.as_ref().map_or(true, ValT::as_bool));
-                if any_true { l } else { r }.paths(cv)
+                    .filter(|v| v.as_ref().map_or(true, ValT::as_bool));
+                match l_true.next() {
+                    Some(Err(e)) => box_once(Err(e)),
+                    Some(Ok(_)) => l.paths(cv),
+                    None => r.paths(cv),
+                }
             }
             Ast::Ite(if_, then_, else_) => {
                 flat_map_then_with(if_.run(proj_cv(&cv)), cv, move |v, cv| {
@@ -710,9 +715,16 @@ impl Id {
             Ast::Ite(if_, then_, else_) => reduce(if_.run(cv.clone()), cv.1, move |x, v| {
                 if x.as_bool() { then_ } else { else_ }.update((cv.0.clone(), v), f.clone())
             }),
+            // `if first(l // false) then l else r end |= f`
             Ast::Alt(l, r) => {
-                let some_true = l.run(cv.clone()).any(|y| y.map_or(true, |y| y.as_bool()));
-                if some_true { l } else { r }.update(cv, f)
+                let mut l_true = l
+                    .run(cv.clone())
+                    .filter(|v| v.as_ref().map_or(true, ValT::as_bool));
+                match l_true.next() {
+                    Some(Err(e)) => box_once(Err(e)),
+                    Some(Ok(_)) => l.update(cv, f),
+                    None => r.update(cv, f),
+                }
             }
             Ast::Fold(xs, pat, init, update, fold_type) => {
                 let xs = rc_lazy_list::List::from_iter(run_and_bind(xs, cv.clone(), pat));
